@@ -11,13 +11,18 @@ Tokens
 Operations
   auth <a|d|m> <policies> <names>                 stateless: parse, merge, load, decide
   reset <a|d|m> <dc>                               new store, new caches
-  pol <id> <modidx> <tag> <dcs> <policy>  | delpol <id>
+  pol <id> <modidx> <tag> <dcs> <policy>  | delpol <id> | delrole <id> | deltok <secret>
   role <id> <policy ids> <svc ids> <node ids>  | tok <secret> <policy ids> <role ids> <svc ids> <node ids>
   compile <e|x> <policy ids> <names>               ACLPolicies.Compile through the shared caches (e: print hit + cache sizes)
   resolve <secret> <names>                         ACLResolver.ResolveToken through the shared caches
   purge                                            empty the caches
+RPC mode (identity / role / policy TTL caches, CV.AclRpc)
+  rreset <a|d> <dc> <a|d|e|y down policy> <token ttl> <policy ttl> <role ttl>    new store, caches, clock 0
+  tick <n>                                         advance the clock
+  net <0|1>                                        the RPCs to the servers fail / succeed
+  rresolve <secret> <names>                        ACLResolver.ResolveToken through the TTL caches
 -/
-import CV.Acl
+import CV.AclRpc
 namespace CV.Engine.C08
 open CV CV.Acl
 
@@ -109,8 +114,16 @@ structure St where
   caches : Caches
   dflt : Static
   dc : Bytes
+  cfg : RpcCfg := ⟨0, 0, 0, .extend, .denyAll, []⟩
+  rst : RpcState := RpcState.empty
+  now : Nat := 0
+  up : Bool := true
 
-def St.init : St := ⟨Store.empty, Caches.empty, .denyAll, []⟩
+def St.init : St := { store := Store.empty, caches := Caches.empty, dflt := .denyAll, dc := [] }
+
+def parseDown (tok : String) : Option DownPolicy :=
+  if tok == "a" then some .allow else if tok == "d" then some .deny
+  else if tok == "e" then some .extend else if tok == "y" then some .async else none
 
 def ok (s : St) : St × String := (s, "ok")
 def bad (s : St) : St × String := (s, "bad-op")
@@ -129,7 +142,7 @@ def step (s : St) (toks : List String) : St × String :=
     | _, _, _ => bad s
   | ["reset", d, dc] =>
     match parseStatic d, decB dc with
-    | some d, some dc => ok ⟨Store.empty, Caches.empty, d, dc⟩
+    | some d, some dc => ok { St.init with dflt := d, dc := dc }
     | _, _ => bad s
   | ["pol", id, mi, tag, dcs, p] =>
     match decB id, mi.toNat?, tag.toNat?, parseNames dcs, parsePolicy p with
@@ -138,6 +151,14 @@ def step (s : St) (toks : List String) : St × String :=
   | ["delpol", id] =>
     match decB id with
     | some id => ok { s with store := s.store.delDoc id }
+    | none => bad s
+  | ["delrole", id] =>
+    match decB id with
+    | some id => ok { s with store := s.store.delRole id }
+    | none => bad s
+  | ["deltok", sec] =>
+    match decB sec with
+    | some sec => ok { s with store := s.store.delToken sec }
     | none => bad s
   | ["role", id, pids, svcs, nodes] =>
     match decB id, parseNames pids, (decList svcs).mapM parseSvc, (decList nodes).mapM parseNode with
@@ -172,6 +193,31 @@ def step (s : St) (toks : List String) : St × String :=
       | .ok z => (s', s!"c={vector (chain z s.dflt) ns}")
     | _, _ => bad s
   | ["purge"] => ok { s with caches := Caches.empty }
+  | ["rreset", d, dc, dn, t1, t2, t3] =>
+    match parseStatic d, decB dc, parseDown dn, t1.toNat?, t2.toNat?, t3.toNat? with
+    | some d, some dc, some dn, some t1, some t2, some t3 =>
+      ok { St.init with dflt := d, dc := dc, cfg := ⟨t1, t2, t3, dn, d, dc⟩ }
+    | _, _, _, _, _, _ => bad s
+  | ["tick", n] =>
+    match n.toNat? with
+    | some n => ok { s with now := s.now + n }
+    | none => bad s
+  | ["net", b] =>
+    match decBool b with
+    | some b => ok { s with up := b }
+    | none => bad s
+  | ["rresolve", sec, ns] =>
+    match decB sec, parseNames ns with
+    | some sec, some ns =>
+      let (rst, r) := resolveRpc s.cfg s.up s.store s.now s.rst sec
+      let s' := { s with rst := rst }
+      match r with
+      | .err .root => (s', "err:root")
+      | .err .notFound => (s', "err:notfound")
+      | .err .compile => (s', "err:compile")
+      | .down => (s', s!"c={vector s.cfg.downAuthz.decide ns}")
+      | .ok z => (s', s!"c={vector (chain z s.cfg.dflt) ns}")
+    | _, _ => bad s
   | _ => bad s
 
 def engine : Engine := { State := St, init := St.init, step := step }
